@@ -1,0 +1,14 @@
+//go:build verif
+
+package clocks
+
+// Contracts for the verification machinery in /verif (comment-only; not compiled without the tag "verif").
+
+// C18: the drift allowance is proportional to the interval: for a known drift rate it is the product of interval and
+// rate up to float rounding and truncation (at most 2 ns for intervals up to 10^6 s and rates up to 1), and the
+// unknown rate yields the maximum allowance.
+//@ func (*SystemClock).Drift
+//@   requires c != nil && 0 <= duration && duration <= 1000000000000000 && 0 <= c.drift && c.drift <= 1.0
+//@   ensures unknown: c.drift == 0 ==> result == 9223372036854775807
+//@   ensures proportional: c.drift != 0 ==> float64(result)-float64(duration)*c.drift <= 2.0 && float64(duration)*c.drift-float64(result) <= 2.0
+//@   ensures nonneg: result >= 0
